@@ -106,6 +106,98 @@ theorem Enc.bytes_spec (start : Nat) (slots : Slots) (hs : slotsOk slots) (hne :
 theorem Enc.bytes_empty (start : Nat) : ((Enc.fresh start).appendAll []).bytes.1 = none := by
   simp [Enc.appendAll, Enc.bytes, Enc.fresh]
 
+
+/-! ### the empty block -/
+
+/-- a decoder over zero bytes: nothing buffered, and either no partial byte or the error already recorded -/
+structure EmptyDec (d : Dec) : Prop where
+  inited : d.inited = true
+  buf : d.r.buf = []
+  b : d.r.b = 0
+  state : d.r.count = 0 ∨ d.r.err = true
+
+theorem EmptyDec.hasValue {d : Dec} (h : EmptyDec d) :
+    d.hasValue.1 = false ∧ EmptyDec d.hasValue.2 ∧ d.hasValue.2.startTime = d.startTime ∧
+    d.hasValue.2.endTime = d.endTime ∧ d.hasValue.2.idx = d.idx := by
+  obtain ⟨hi, hb, hz, hs⟩ := h
+  have hg : d.r.buf[d.r.idx]? = none := by rw [hb]; simp
+  by_cases hc : d.r.count = 0
+  · have e : d.hasValue = (false, { d with r := { d.r with b := (0 <<< 1) % 256, count := 8 - 1, err := true }, err := true }) := by
+      simp [Dec.hasValue, hi, Reader.readBit, Reader.getByte, hc, hg]
+    rw [e]
+    exact ⟨rfl, ⟨hi, hb, rfl, Or.inr rfl⟩, rfl, rfl, rfl⟩
+  · have he : d.r.err = true := by
+      rcases hs with h | h
+      · exact absurd h hc
+      · exact h
+    have e : d.hasValue = (false, { d with r := { d.r with b := (d.r.b <<< 1) % 256, count := d.r.count - 1 }, err := true }) := by
+      simp [Dec.hasValue, hi, Reader.readBit, hc, he, hz]
+    rw [e]
+    exact ⟨rfl, ⟨hi, hb, by simp [hz], Or.inr he⟩, rfl, rfl, rfl⟩
+
+theorem EmptyDec.hasValueWithSlot {d : Dec} (h : EmptyDec d) (q : Nat) :
+    (d.hasValueWithSlot q).1 = false ∧ EmptyDec (d.hasValueWithSlot q).2 := by
+  unfold Dec.hasValueWithSlot
+  by_cases c1 : q < d.startTime ∨ q > d.endTime
+  · rw [if_pos c1]; exact ⟨rfl, h⟩
+  · rw [if_neg c1]
+    by_cases c2 : q = u16 (d.idx + d.startTime)
+    · rw [if_pos c2]
+      have h' : EmptyDec { d with idx := u16 (d.idx + 1) } := ⟨h.inited, h.buf, h.b, h.state⟩
+      exact ⟨h'.hasValue.1, h'.hasValue.2.1⟩
+    · rw [if_neg c2]; exact ⟨rfl, h⟩
+
+theorem EmptyDec.getValue {d : Dec} (h : EmptyDec d) (q : Nat) :
+    (d.getValue q).1 = none ∧ EmptyDec (d.getValue q).2 := by
+  obtain ⟨h1, h2⟩ := h.hasValueWithSlot q
+  unfold Dec.getValue
+  generalize d.hasValueWithSlot q = p at h1 h2
+  obtain ⟨v, d'⟩ := p
+  simp only at h1 h2
+  subst h1
+  exact ⟨rfl, h2⟩
+
+theorem EmptyDec.getValues : ∀ (qs : List Nat) (d : Dec), EmptyDec d → (d.getValues qs).1 = qs.map (fun _ => none) := by
+  intro qs
+  induction qs with
+  | nil => intro d _; rfl
+  | cons q qs ih =>
+    intro d h
+    obtain ⟨h1, h2⟩ := h.getValue q
+    simp only [Dec.getValues, List.map_cons]
+    generalize d.getValue q = p at h1 h2
+    obtain ⟨o, d'⟩ := p
+    simp only at h1 h2
+    subst h1
+    rw [ih d' h2]
+
+theorem EmptyDec.readSeq : ∀ (fuel : Nat) (d : Dec), EmptyDec d → (d.readSeq fuel).1 = [] := by
+  intro fuel
+  induction fuel with
+  | zero => intro d _; rfl
+  | succ f ih =>
+    intro d h
+    simp only [Dec.readSeq]
+    unfold Dec.next
+    split
+    · have h' : EmptyDec { d with idx := u16 (d.idx + 1) } := ⟨h.inited, h.buf, h.b, h.state⟩
+      obtain ⟨h1, h2, _⟩ := h'.hasValue
+      generalize ({ d with idx := u16 (d.idx + 1) } : Dec).hasValue = p at h1 h2
+      obtain ⟨v, d'⟩ := p
+      simp only at h1 h2
+      subst h1
+      simpa using ih d' h2
+    · simp
+
+/-- `ResetWithTimeRange([], s, e)` on ANY decoder object -/
+theorem Dec.resetWithTimeRange_empty (d : Dec) (s e : Nat) : EmptyDec (d.resetWithTimeRange [] s e) := by
+  unfold Dec.resetWithTimeRange
+  by_cases hi : d.inited
+  · simp only [Dec.reset', hi, Bool.not_true, Bool.false_eq_true, if_false]
+    exact ⟨rfl, rfl, rfl, Or.inl rfl⟩
+  · simp only [Dec.reset', hi, Bool.not_false, if_true]
+    exact ⟨rfl, rfl, rfl, Or.inl rfl⟩
+
 theorem slotsOk_of (slots : Slots) (h : ∀ v, some v ∈ slots → v < 2 ^ 64) : slotsOk slots :=
   fun v hv => by simpa [two64] using h v hv
 
